@@ -106,6 +106,8 @@ def check_fixed_point(ctx, spec, p, channel, C, otherdir):
                                 sig = f"parse_object-changes-own-result/union-earlier-member-rereads/{own0.kind}-to-{own1.kind}"
                         except Exception:
                             pass
+                if sig is None and only_empty_namespaces_dropped(strip_prov(C0, dests), strip_prov(o.value, dests), steps):
+                    sig = f"parse_object-changes-own-result/empty-namespace-dropped/{'nodefaults' if channel.endswith('nodefaults') else 'defaults'}"
                 if sig is None:
                     sig = f"parse_object-changes-own-result/{node.kind if node is not None else 'structure'}/{diff_class((steps_str(steps), reason))}"
                 ctx.violation("fixedpoint", sig, dict(channel=channel, where=where, at=steps_str(steps), why=reason, hint=t.skel if t else None, config=short(C0, 800), reparsed=short(o.value, 800)))
@@ -166,6 +168,22 @@ def check_fixed_point(ctx, spec, p, channel, C, otherdir):
                 return
             ctx.violation("fixedpoint", f"dump-parse-dump-not-identical/{fmt}/{cause}", dict(channel=channel, first=short(o1.value, 800), second=short(o2.value, 800), first_diff=diff))
             return
+
+
+def only_empty_namespaces_dropped(a, b, steps):
+    """the two configurations differ at `steps` only by keys of `a` that hold a Namespace without any leaf"""
+    try:
+        for kind, k in steps:
+            a = a[str(k)] if isinstance(a, Namespace) else a[k]
+            b = b[str(k)] if isinstance(b, Namespace) else b[k]
+        if not (isinstance(a, Namespace) and isinstance(b, Namespace)):
+            return False
+        ka, kb = set(vars(a)), set(vars(b))
+        if kb - ka or not (ka - kb):
+            return False
+        return all(isinstance(vars(a)[k], Namespace) and not list(vars(a)[k].keys()) for k in ka - kb)
+    except Exception:
+        return False
 
 
 def channel_family(ch):
